@@ -174,7 +174,7 @@ func LockOrder(w *load.World, ls *lockset.Result, c *core.Collector) {
 func LockPair(w *load.World, ls *lockset.Result, c *core.Collector) {
 	leaky := map[*ssa.Function]bool{}
 	for _, l := range ls.Leaks {
-		if l.Transfer {
+		if l.Transfer && ls.TransferConsistent(l) {
 			// a helper that returns with a lock held: the lock is tracked on in its callers
 			continue
 		}
